@@ -46,6 +46,7 @@ func (p *c09) check(rec *core.Recorder, class string, body []mt.Stmt, ctx map[st
 	for k, v := range goOver {
 		gctx[k] = v
 	}
+	srcs["main"] = shadowingMacros(rec, canon, srcs["main"], gctx)
 	res := renderFresh(srcs, "main", gctx, shadowedGlobals(rec, canon, gctx, nil))
 	if res.Panicked {
 		rec.Violate("panic", "panic@"+res.Site, "engine panicked: "+res.PanicVal, caseDump(srcs, "main", ctx, map[string]any{"expected": want}), res.Stack)
